@@ -1,12 +1,12 @@
 #!/usr/bin/env python3
-"""seedbatch.py <id> [<id> ...]: for /tmp/seedout/<id>/{A,B}: confirm, copy to /verif/seeded/<id>-<X>/, run ./check <id>, write result.json"""
+"""seedbatch.py <id> [<id> ...]: for $SEEDOUT/<id>/{A,B,C,D} ($SEEDOUT default /tmp/seedout2): confirm, copy to /verif/seeded/<id>-<X>/, run ./check <id>, write result.json"""
 import json, os, shutil, sys, subprocess
 sys.path.insert(0, os.path.dirname(os.path.abspath(__file__)))
 import seedtest
 ROOT = seedtest.ROOT
 for pid in sys.argv[1:]:
-    for x in ('A', 'B'):
-        src = '/tmp/seedout/%s/%s' % (pid, x)
+    for x in ('A', 'B', 'C', 'D'):
+        src = '%s/%s/%s' % (os.environ.get('SEEDOUT', '/tmp/seedout2'), pid, x)
         if not os.path.exists(os.path.join(src, 'patch.diff')):
             continue
         sid = '%s-%s' % (pid, x)
